@@ -4,6 +4,7 @@ package main
 import (
 	"fmt"
 	"math"
+	"os"
 	"strconv"
 	"strings"
 
@@ -16,6 +17,11 @@ import (
 )
 
 func main() {
+	if pf := os.Getenv("C03_CONC_CHILD"); pf != "" {
+		// the child process of the concurrent first-question family (conc.go)
+		concChild(pf)
+		return
+	}
 	cfg := lib.ParseFlags()
 	res := lib.NewResult("C03")
 	res.Rule = "types: the lattice pool (atoms with boundary ranges + every constructor over an element sub-pool + seeded random types of " +
@@ -28,7 +34,10 @@ func main() {
 		"required / Optional[k] / implicitly optional keys and Hashes, Enums that repeat a value (directly or through the case-insensitive flag), random " +
 		"types over all of it. Fifth wave: two distinct alias objects with one name and different definitions (Go constructor, contexts of their own) in 17 member positions; " +
 		"Hash types whose key or value type is a wrapper around string / integer types next to Structs with required members; clause interchange: types that accept each other " +
-		"(not through the by-specification rule) get the same answers from, and give the same answers to, every third type"
+		"(not through the by-specification rule) get the same answers from, and give the same answers to, every third type. " +
+		"Sixth wave: Enums with long value lists (1..300 values, products of lengths on both sides of 256 / 1024, either case flag, capitals on either side, alone and in member " +
+		"positions; all pairs of the bare family also go to the model tie); concurrent first questions: fresh Struct / Object / Variant / alias / Enum types asked for the first time " +
+		"by 4-8 goroutines at once in a child process, every answer compared with the sequential answer on separately constructed copies"
 	pcore.Do(func(c px.Context) {
 		if cfg.Replay != "" {
 			replay(c, cfg, res)
@@ -416,6 +425,8 @@ func run(c px.Context, cfg *lib.Config, res *lib.Result) {
 	xt = append(xt, lat.Ext5Types(lib.NewRng(cfg.Seed^0x5eed05), cfg.Thorough())...)
 	hk := lat.HashKeyFamilies(lib.NewRng(cfg.Seed^0x5eed06), cfg.Thorough())
 	xt = append(xt, hk...)
+	// sixth wave: Enums with long value lists (the answer is a function of the value sets and the flags, whatever the lengths)
+	xt = append(xt, lat.LongEnumFamilies(false)...)
 	u := lat.NewUniverseWith(rng, nRandom, 1, xt, nil)
 	// Unit is "two-way assignable by definition" (every type accepts it and it accepts every type), so no
 	// order law can hold through it (Integer >= Unit >= String): types that contain Unit are left out.
@@ -437,6 +448,11 @@ func run(c px.Context, cfg *lib.Config, res *lib.Result) {
 	}
 	spec := func(i int) interface{} { return u.Specs[i] }
 
+	// ---- sixth wave: the answers must not depend on who else asks at the same time. The trials run in a child process,
+	// next to the single-threaded search below; joinConc (deferred: after the model-tie files are written) waits for it and puts
+	// its violations in front of the capped list
+	joinConc := startConcurrentFirstQuestions(cfg, build)
+	defer joinConc(res)
 	// ---- no Float type with a NaN bound: not from the constructor, not among the types inferred for values that hold NaN
 	floatNaNProbes(res)
 	for a := 0; a < n; a++ {
@@ -701,13 +717,19 @@ func run(c px.Context, cfg *lib.Config, res *lib.Result) {
 	}
 
 	// ---- M: model tie. Equals matrix vs ty_eqb, assignability vs asg (pairs drawn from the transitivity chains and the equal pairs)
+	// (types that hold a long Enum are left to cases_longenum below: each occurrence is some KB of text, and their hundreds of
+	// strings would multiply the rows of the regexp oracle table of the file they are drawn into)
+	heavy := make([]bool, n)
+	for i := 0; i < n; i++ {
+		heavy[i] = lat.HasLongEnum(u.Specs[i])
+	}
 	var eqT, eqF, asgPs []pair
 	for a := 0; a < n; a++ {
-		if !u.InM[a] {
+		if !u.InM[a] || heavy[a] {
 			continue
 		}
 		for b := 0; b < n; b++ {
-			if !u.InM[b] {
+			if !u.InM[b] || heavy[b] {
 				continue
 			}
 			if eq[a][b] {
@@ -779,6 +801,97 @@ func run(c px.Context, cfg *lib.Config, res *lib.Result) {
 		cf.Prelude = lat.Oracle(pats, strs)
 		res.CorrFiles = append(res.CorrFiles, cf.WriteTo(cfg.Out, "cases_structhash"))
 	}
+	// M: long Enums on every run. The model's Enum <- Enum is forallb (enum_inst ci vs) vs' whatever the lengths: ALL pairs of the
+	// bare long-Enum family (and the String types of single values) whose lengths multiply to at most 300 (20 x 15, 16 x 16, 17 x 16,
+	// 300 x 1, 257 x 1; quick tier: all up to 40, a third of the others by the seed), and of the costlier pairs one (thorough: eight) per combination of the two lengths, drawn by the seed (32 x 32,
+	// 33 x 32, 40 x 40, 300 x 300, ...: every combination on every run; 300 x 300 is 90000 string comparisons in the model, about
+	// 1 us each under vm_compute, all pairs would be ~1e9). The types are defined once in the prelude and referred to by name; the ~35000 pairs are
+	// written as one row per left type (a flat list literal of that length overflows coqc's stack) and expanded by flat_map in
+	// the order of the recorded inputs, which name the two types by their position in lat.LongEnumBare.
+	{
+		fam := lat.LongEnumFamilies(false)
+		pos := map[string]int{}
+		for i := 0; i < n; i++ {
+			pos[u.Specs[i].String()] = i + 1
+		}
+		var idx, famIdx []int
+		var prelude strings.Builder
+		var lists lat.StrListTable
+		for fi, sp := range fam {
+			if sp.K == "Pattern" {
+				continue
+			}
+			if i := pos[sp.String()] - 1; i >= 0 && u.InM[i] {
+				fmt.Fprintf(&prelude, "Definition LE%d : ty := %s.\n", len(idx), lists.GTy(u.Dec[i]))
+				idx = append(idx, i)
+				famIdx = append(famIdx, fi)
+			}
+		}
+		ln := func(i int) int { return lat.LongEnumCost(u.Specs[i]) }
+		// the pairs: two bare types (Enum / String), or two types with the same outermost constructor
+		paired := func(a, b int) bool {
+			bare := func(i int) bool { k := u.Dec[i].K; return k == "Enum" || k == "StringVal" || k == "StringSz" }
+			return (bare(a) && bare(b)) || u.Dec[a].K == u.Dec[b].K
+		}
+		cf := &lib.CasesFile{Imports: []string{"Model.Base", "Model.Ty", "Model.Lattice", "Model.TyEq", "Corr.CorrC01", "Corr.CorrC03"}, Typ: "ty * ty * bool * bool",
+			Obligations: map[string]string{"eq_model": "eq_mismatches (cases ++ le_cases)", "asg_model": "asg2_mismatches orc (cases ++ le_cases)"}}
+		perGroup, oneIn := 1, 3
+		if cfg.Thorough() {
+			perGroup, oneIn = 8, 1
+		}
+		count := func(a, b int) {
+			if u.Asg[a][b] {
+				res.Count("longenum.cases.accepted")
+			} else {
+				res.Count("longenum.cases.rejected")
+			}
+		}
+		big := map[[2]int][]pair{}
+		var groups [][2]int
+		var rows []string
+		var rowInputs []interface{}
+		for ka := range idx {
+			var row []string
+			for kb := range idx {
+				a, b := idx[ka], idx[kb]
+				if !paired(a, b) {
+					continue
+				}
+				if c := ln(a) * ln(b); c > 40 && c <= 300 && (uint64(ka*7919+kb*104729)+cfg.Seed)%uint64(oneIn) != 0 {
+					// quick tier: a third of the pairs between 40 and 300 comparisons, chosen by the seed (each combination of two
+					// lengths occurs in dozens of pairs: both flags, four spellings)
+					continue
+				} else if c > 300 {
+					g := [2]int{ln(a), ln(b)}
+					if big[g] == nil {
+						groups = append(groups, g)
+					}
+					big[g] = append(big[g], pair{ka, kb})
+					continue
+				}
+				count(a, b)
+				row = append(row, fmt.Sprintf("(LE%d, %s, %s)", kb, lib.GBool(eq[a][b]), lib.GBool(u.Asg[a][b])))
+				rowInputs = append(rowInputs, map[string]interface{}{"kind": "le", "i": famIdx[ka], "j": famIdx[kb]})
+			}
+			rows = append(rows, fmt.Sprintf("(LE%d, %s)", ka, lib.GList(row, "ty * bool * bool")))
+		}
+		var drawn []pair
+		for _, g := range groups {
+			drawn = append(drawn, sample(big[g], perGroup)...)
+		}
+		for _, p := range drawn {
+			a, b := idx[p.a], idx[p.b]
+			count(a, b)
+			cf.Add(fmt.Sprintf("(LE%d, LE%d, %s, %s)", p.a, p.b, lib.GBool(eq[a][b]), lib.GBool(u.Asg[a][b])), map[string]interface{}{"kind": "le", "i": famIdx[p.a], "j": famIdx[p.b]})
+		}
+		cf.Inputs = append(cf.Inputs, rowInputs...)
+		prelude.WriteString("Definition le_rows : list (ty * list (ty * bool * bool)) :=\n " + lib.GList(rows, "ty * list (ty * bool * bool)") + ".\n")
+		prelude.WriteString("Definition le_cases : list (ty * ty * bool * bool) :=\n flat_map (fun r => map (fun x => (fst r, fst (fst x), snd (fst x), snd x)) (snd r)) le_rows.\n")
+		cf.Prelude = lists.Defs.String() + prelude.String() + lat.Oracle(map[string]bool{}, map[string]bool{})
+		res.Extra["long-enum-types-in-model-tie"] = len(idx)
+		res.Extra["long-enum-pairs-in-model-tie"] = len(cf.Inputs)
+		res.CorrFiles = append(res.CorrFiles, cf.WriteTo(cfg.Out, "cases_longenum"))
+	}
 	shards := 4
 	for s := 0; s < shards; s++ {
 		cf := &lib.CasesFile{Imports: []string{"Model.Base", "Model.Ty", "Model.Lattice", "Model.TyEq", "Corr.CorrC01", "Corr.CorrC03"}, Typ: "ty * ty * bool * bool",
@@ -804,6 +917,8 @@ func replay(c px.Context, cfg *lib.Config, res *lib.Result) {
 			Lo   string    `json:"lo"`
 			Hi   string    `json:"hi"`
 			Law  string    `json:"law"`
+			I    int       `json:"i"`
+			J    int       `json:"j"`
 			Ctx  string    `json:"ctx"`
 			A    *lat.Spec `json:"a"`
 			B    *lat.Spec `json:"b"`
@@ -817,6 +932,8 @@ func replay(c px.Context, cfg *lib.Config, res *lib.Result) {
 			res.Violate(lib.Violation{Clause: clause, What: what, Input: in})
 		}
 		switch x.Kind {
+		case "conc":
+			replayConc(cfg, res, in)
 		case "nanbound":
 			lo, _ := strconv.ParseFloat(x.Lo, 64)
 			hi, _ := strconv.ParseFloat(x.Hi, 64)
@@ -839,7 +956,12 @@ func replay(c px.Context, cfg *lib.Config, res *lib.Result) {
 			if p.Equals(a, nil) && a.Equals(p, nil) && (!asg(a, p) || !asg(p, a)) {
 				fail("reflexive-reparsed", fmt.Sprintf("%s and its re-parsed copy do not accept each other", a))
 			}
-		case "eq":
+		case "eq", "le":
+			if x.Kind == "le" {
+				// a pair of the long-Enum family, named by position
+				fam := lat.LongEnumFamilies(false)
+				x.A, x.B = fam[x.I], fam[x.J]
+			}
 			a, b := x.A.Build(), x.B.Build()
 			e := a.Equals(b, nil)
 			fmt.Printf("A = %s\nB = %s\nA.Equals(B) = %v, A accepts B = %v, B accepts A = %v\n", a, b, e, asg(a, b), asg(b, a))
